@@ -278,6 +278,10 @@ def concat2(a, b):
     a, b = deref(a), deref(b)
     if isinstance(a, str) and isinstance(b, str):
         return a + b
+    if type(a).__name__ in ('JsonStr', 'JsonText') or type(b).__name__ in ('JsonStr', 'JsonText'):
+        from .extern import JsonText, JsonStr
+        if all(isinstance(x, (str, JsonStr, JsonText)) for x in (a, b)):
+            return JsonText([a, b])
     if a == '':
         return b
     if b == '':
@@ -489,6 +493,14 @@ def m_str_method(I, path, args):
                 return s
             if meth == 'is_empty':
                 return s.len_model(I) == 0
+            if meth == 'push_str':
+                a0.lv.set(concat2(s, deref(args[1])))
+                return UNIT()
+            if meth == 'push' and isinstance(args[1], int):
+                a0.lv.set(concat2(s, chr(args[1])))
+                return UNIT()
+            if meth == 'reserve':
+                return UNIT()
         if meth in ('from_utf8',):
             r = from_bytes(I, a0)
             return r
